@@ -142,8 +142,13 @@ func genCase(t *rapid.T) Case {
 	c.RelDirs = rapid.IntRange(0, 2).Draw(t, "relDirs") == 0
 	if rapid.IntRange(0, 2).Draw(t, "fault") == 0 {
 		c.Fault = Fault{Kind: "chunk", Call: rapid.IntRange(1, 4).Draw(t, "fcall"), Chunk: rapid.SampledFrom([]int{-1, 0, 1, 1, 2}).Draw(t, "fchunk")}
-		if rapid.IntRange(0, 2).Draw(t, "freply") == 0 {
+		switch rapid.IntRange(0, 5).Draw(t, "freply") {
+		case 0, 1:
 			c.Fault.Kind = "replylost"
+		case 2:
+			// the answer to a chunk comes too late for the sender, which is configured with two attempts (the
+			// shipped value): the chunk is delivered a second time
+			c.Fault = Fault{Kind: "replylate", Call: rapid.IntRange(1, 4).Draw(t, "flate"), Chunk: 1}
 		}
 		c.Rollback = rapid.IntRange(0, 3).Draw(t, "rollback") == 0
 		if c.Rollback && rapid.Bool().Draw(t, "rollbackTorso") {
@@ -186,6 +191,7 @@ func seq(n int) []int {
 // ---------------------------------------------------------------------------
 
 type env struct {
+	retries int // RPC attempts of every node (0 = 1)
 	dir      string
 	oddDirs  bool
 	relDirs  bool
@@ -215,7 +221,7 @@ func (e *env) names(idx []int) []string {
 
 func (e *env) start(idx []int, servers []string) error {
 	for _, k := range idx {
-		n, err := drive.NewClusterNode(e.root(k), e.specs[k], servers, drive.ClusterOpts{MaxShardPointCount: 2, ShardTimeout: 1, RpcTimeout: 20, RpcRetries: 1, ShardSubdir: e.shardSub, RelativeDirs: e.relDirs}, true)
+		n, err := drive.NewClusterNode(e.root(k), e.specs[k], servers, drive.ClusterOpts{MaxShardPointCount: 2, ShardTimeout: 1, RpcTimeout: 20, RpcRetries: max(1, e.retries), ShardSubdir: e.shardSub, RelativeDirs: e.relDirs}, true)
 		if err != nil {
 			return fmt.Errorf("node %d: %v", k, err)
 		}
@@ -329,6 +335,9 @@ func execCase(c Case) (res vt.Result) {
 	dir, cleanup := drive.CaseDir()
 	defer cleanup()
 	e := &env{dir: dir, nodes: make([]*cluster.ClusterNode, c.Total)}
+	if c.Fault.Kind == "replylate" {
+		e.retries = 2
+	}
 	if c.SplitDirs {
 		e.shardSub = "shards"
 		if c.OddDirs {
@@ -551,9 +560,16 @@ func execCase(c Case) (res vt.Result) {
 	}
 	faulted := false
 	target, targetIdx := newServers, c.New
-	if c.Fault.Kind == "chunk" || c.Fault.Kind == "replylost" {
+	if c.Fault.Kind == "chunk" || c.Fault.Kind == "replylost" || c.Fault.Kind == "replylate" {
 		var calls atomic.Int64
 		fn := func(point string, index int) error {
+			if c.Fault.Kind == "replylate" {
+				if strings.HasPrefix(point, "routed:ClusterNode.RPCSendShard>") && calls.Add(1) == int64(c.Fault.Call) {
+					faulted = true
+					return fmt.Errorf("verif: the answer arrives after the time-out: %w", cluster.ErrTimeout)
+				}
+				return nil
+			}
 			if c.Fault.Kind == "replylost" {
 				// the request was executed by the receiver; its answer never reaches the sender
 				if !strings.HasPrefix(point, "routed:") {
@@ -592,7 +608,10 @@ func execCase(c Case) (res vt.Result) {
 			if c.Fault.Kind == "replylost" {
 				rec.Count("syncs_with_a_lost_reply", 1)
 			}
-			if len(errs) == 0 {
+			if c.Fault.Kind == "replylate" {
+				rec.Count("syncs_with_a_chunk_delivered_twice", 1)
+			}
+			if len(errs) == 0 && c.Fault.Kind != "replylate" { // (a second delivery may be absorbed: then the sync succeeds)
 				return fail("a transfer was interrupted (%s, call %d, chunk %d) but every node's sync reported success", c.Fault.Kind, c.Fault.Call, c.Fault.Chunk)
 			}
 			// nothing may be lost: every shard file still exists somewhere in its original form, every record is still held by a node
